@@ -250,6 +250,25 @@ def covering_triples():
 def run(tier, seed):
     res = Result("model_checking")
     thorough = tier == "thorough"
+    # (d) first: repeated runs on ONE fresh Balancer - [X], [Y], [X], [Y + X] - for ordered pairs of single reactions (thorough: every pair)
+    # (state kept on the instance between calls shows here, as a self-contained history; the stateless
+    # exploration below assumes independent executions)
+    reps = [([B06[0], B06[1]], [B06[8], B06[2]]), ([B06[6]], [B06[0], B06[5]]), ([EXTRA, B06[3]], [B06[1]])]
+    first = B06 if thorough else [B06[1], B06[2], B06[6], B06[13], B06[0], B06[10]]   # quick: one X per way of leaving state behind
+    reps += [([a], [b]) for a in first for b in B06 if a != b]
+    if thorough:
+        reps += [([a, c], [b]) for a in B06[:6] for b in B06[:6] for c in (B06[1], B06[4]) if len({a, b, c}) == 3]
+    rd = pmap("checks.c06:repeat_case", reps, chunk=2, seed=seed, timeout=7200)
+    for j, bad in zip(reps, rd):
+        for b in bad:
+            res.add(Violation("repeat", {"x": j[0], "y": j[1]}, None, None, b["key"], b["what"]))
+    if res.violations:
+        res.observations.append("state survives between calls on one Balancer: the sub-batch and schedule exploration was skipped")
+        res.coverage = {"evaluations": 4 * len(reps), "distinct_nontrivial": len(reps), "states": len(reps), "transitions": 4 * len(reps),
+                        "traces_validated_against_impl": 0, "samples": [{"x": reps[3][0], "y": reps[3][1]}],
+                        "rule": "histories [X], [Y], [X], [Y+X] on one fresh Balancer for every ordered pair of single reactions; the rest was skipped because state leaks between calls",
+                        "exhaustive": False}
+        return res
     # (a)
     subs = [tuple(p) for k in (1, 2) for p in itertools.permutations(B06, k)]
     subs += [tuple(p) for p in itertools.permutations(B06, 3)] if thorough else covering_triples()
@@ -289,14 +308,6 @@ def run(tier, seed):
         if len(v) > 1:
             res.add(Violation("partition", {"rxns": json.loads(k), "bs": "all"}, sorted(v), None,
                               ["stats-depend-on-partition"], "statistics differ between partitions: {}".format(sorted(v))))
-    # (d)
-    reps = [([B06[0], B06[1]], [B06[8], B06[2]]), ([B06[6]], [B06[0], B06[5]]), ([EXTRA, B06[3]], [B06[1]])]
-    if thorough:
-        reps += [([a], [b]) for a in B06 for b in B06 if a != b]
-    rd = pmap("checks.c06:repeat_case", reps, chunk=1, seed=seed, timeout=7200)
-    for j, bad in zip(reps, rd):
-        for b in bad:
-            res.add(Violation("repeat", {"x": j[0], "y": j[1]}, None, None, b["key"], b["what"]))
     # (b)
     isos = ("inline", "task", "chunk") if thorough else ("inline", "task")
     bound = 2 if thorough else 1
